@@ -58,6 +58,9 @@ type Parser struct {
 	curToken  token.Token
 	peekToken token.Token
 
+	// unreadToken is a token that was read ahead and then put back
+	unreadToken *token.Token
+
 	prefixParseFns map[token.TokenType]prefixParseFn
 	infixParseFns  map[token.TokenType]infixParseFn
 
@@ -279,6 +282,13 @@ func (p *Parser) newError(line uint, msg string, args ...any) {
 
 func (p *Parser) nextToken() {
 	p.curToken = p.peekToken
+
+	if p.unreadToken != nil {
+		p.peekToken = *p.unreadToken
+		p.unreadToken = nil
+		return
+	}
+
 	p.peekToken = p.l.NextToken()
 
 	// an illegal character is always an error, wherever it is found
@@ -289,6 +299,15 @@ func (p *Parser) nextToken() {
 			p.peekToken.Literal,
 		)
 	}
+}
+
+// putBack undoes the last nextToken call, prev is the token
+// that was current before that call
+func (p *Parser) putBack(prev token.Token) {
+	unread := p.peekToken
+	p.unreadToken = &unread
+	p.peekToken = p.curToken
+	p.curToken = prev
 }
 
 func (p *Parser) parseIdentifier() ast.Expression {
@@ -528,11 +547,16 @@ func (p *Parser) parseComponentStmt() ast.Statement {
 		p.nextToken() // skip ")"
 		stmt.Slots = p.parseSlots()
 	} else if p.peekTokenIs(token.HTML) && isWhitespace(p.peekToken.Literal) {
+		rparen := p.curToken
+
 		p.nextToken() // skip ")"
 
 		if p.peekTokenIs(token.SLOT) {
 			p.nextToken() // skip whitespace
 			stmt.Slots = p.parseSlots()
+		} else {
+			// no slots follow, the whitespace is ordinary text
+			p.putBack(rparen)
 		}
 	}
 
